@@ -586,3 +586,477 @@ Proof.
 Qed.
 
 End W.
+
+(* ---------- what a flush publishes ---------- *)
+(* The ghost field wp_disk records the payload last written to the file for a page. Invariant: every page in front of
+   the page that holds the open event's header is either dirty (it is in the range of the next flush) or its disk
+   version is its current payload; the header page itself, when clean, agrees with its disk version on everything in
+   front of the header (or the header is the first thing in it). Released pages are clean and on disk. After a
+   successful flush no page up to the header page is dirty: the file holds the stream up to the open header, i.e.
+   exactly the completed events. *)
+Definition core (p : wpage) : list Z * bool * option (list Z) := (wp_data p, wp_dirty p, wp_disk p).
+Definition c_data (c : list Z * bool * option (list Z)) := fst (fst c).
+Definition c_dirty (c : list Z * bool * option (list Z)) := snd (fst c).
+Definition c_disk (c : list Z * bool * option (list Z)) := snd c.
+Definition c_settled (c : list Z * bool * option (list Z)) : Prop := c_dirty c = false -> c_disk c = Some (c_data c).
+Definition c_done (c : list Z * bool * option (list Z)) : Prop := c_dirty c = false /\ c_disk c = Some (c_data c).
+Definition c_hdr_ok (c : list Z * bool * option (list Z)) (k : nat) : Prop :=
+  c_dirty c = false -> k = O \/ exists d, c_disk c = Some d /\ firstn k d = firstn k (c_data c).
+
+Definition cores (l : list wpage) := map core l.
+
+Lemma cores_app a b : cores (a ++ b) = cores a ++ cores b. Proof. apply map_app. Qed.
+Lemma cores_assign : forall ids l, cores (assign ids l) = cores l.
+Proof. intros ids l; revert ids. induction l as [|x l IH]; intros [|id ids]; cbn; auto. f_equal. apply IH. Qed.
+Lemma cores_link : forall l, cores (link l) = cores l.
+Proof. induction l as [|x [|y l] IH]; cbn; auto. f_equal. exact IH. Qed.
+Lemma cores_stale : forall l, cores (stale_links l) = cores l.
+Proof. induction l as [|x [|y l] IH]; cbn; auto. f_equal. exact IH. Qed.
+Lemma cores_map_same (f : wpage -> wpage) l : (forall x, core (f x) = core x) -> cores (map f l) = cores l.
+Proof. intros H. unfold cores. rewrite map_map. apply map_ext. exact H. Qed.
+Lemma cores_firstn n l : cores (firstn n l) = firstn n (cores l). Proof. symmetry. apply firstn_map. Qed.
+Lemma cores_skipn n l : cores (skipn n l) = skipn n (cores l). Proof. symmetry. apply skipn_map. Qed.
+Lemma cores_pdata l : map c_data (cores l) = pdata l.
+Proof. unfold cores, pdata. rewrite map_map. reflexivity. Qed.
+
+(* buffer with an open event *)
+Definition PubB (b : wbuf) : Prop :=
+  exists CA cp CB k, cores (b_pages b) = CA ++ cp :: CB /\ b_hdr b = Some (length CA, (pgH + k)%nat) /\
+    (k + hdr_len <= length (c_data cp))%nat /\ Forall c_settled CA /\ c_hdr_ok cp k.
+(* buffer between CommitEvent and ReserveHdr: everything from page i on is dirty *)
+Definition PubC (b : wbuf) : Prop :=
+  exists CA CC, cores (b_pages b) = CA ++ CC /\ Forall c_settled CA /\ Forall (fun c => c_dirty c = true) CC.
+
+Lemma upd_last_cores_push d l : cores (upd_last (push d) l) = upd_last (fun c => (c_data c ++ d, c_dirty c, c_disk c)) (cores l).
+Proof.
+  destruct (snoc_cases l) as [->|[a [x ->]]]; [reflexivity|].
+  unfold cores. rewrite upd_last_snoc, !map_app. cbn [map]. rewrite upd_last_snoc. reflexivity.
+Qed.
+
+Lemma firstn_app_le {A} (k : nat) (a b : list A) : (k <= length a)%nat -> firstn k (a ++ b) = firstn k a.
+Proof. intros H. rewrite firstn_app. replace (k - length a)%nat with O by lia. cbn. apply app_nil_r. Qed.
+
+Lemma PubB_grow_last (b b' : wbuf) d :
+  cores (b_pages b') = upd_last (fun c => (c_data c ++ d, c_dirty c, c_disk c)) (cores (b_pages b)) ->
+  b_hdr b' = b_hdr b -> PubB b -> PubB b'.
+Proof.
+  intros Hc Hh (CA & cp & CB & k & E & Hhdr & Hk & HA & Hp). unfold PubB. rewrite Hc, Hh, E.
+  destruct (snoc_cases CB) as [->|[CB' [t ->]]].
+  - rewrite upd_last_snoc. exists CA, (c_data cp ++ d, c_dirty cp, c_disk cp), [], k.
+    split; [reflexivity|]. split; [exact Hhdr|]. split; [unfold c_data in *; cbn [fst] in *; rewrite app_length; lia|]. split; [exact HA|].
+    intros Hd. destruct (Hp Hd) as [->|(d0 & Hd0 & Hf)]; [left; reflexivity|right].
+    exists d0. split; [exact Hd0|]. unfold c_data in *; cbn [fst] in *. rewrite firstn_app_le by lia. exact Hf.
+  - replace (CA ++ cp :: CB' ++ [t]) with ((CA ++ cp :: CB') ++ [t]) by (rewrite <- app_assoc; reflexivity).
+    rewrite upd_last_snoc. exists CA, cp, (CB' ++ [(c_data t ++ d, c_dirty t, c_disk t)]), k.
+    split; [rewrite <- app_assoc; reflexivity|]. auto.
+Qed.
+
+Lemma PubB_snoc_fresh (b b' : wbuf) :
+  cores (b_pages b') = cores (b_pages b) ++ [core fresh_wpage] -> b_hdr b' = b_hdr b -> PubB b -> PubB b'.
+Proof.
+  intros Hc Hh (CA & cp & CB & k & E & Hhdr & Hk & HA & Hp). unfold PubB. rewrite Hc, Hh, E.
+  exists CA, cp, (CB ++ [core fresh_wpage]), k. split; [rewrite <- app_assoc; reflexivity|]. auto.
+Qed.
+
+Section Pub.
+Variable PS : nat.
+
+Lemma append_byte_PubB b x : PubB b -> PubB (append_byte PS b x).
+Proof.
+  intros H. unfold append_byte.
+  set (b1 := if (room PS b =? 0)%nat then advance b else b).
+  assert (H1 : PubB b1).
+  { unfold b1. destruct (room PS b =? 0)%nat; [|exact H].
+    eapply PubB_snoc_fresh; [| |exact H]; cbn [advance b_pages b_hdr]; [apply cores_app|reflexivity]. }
+  eapply PubB_grow_last; [| |exact H1]; cbn [b_pages b_hdr]; [apply upd_last_cores_push|reflexivity].
+Qed.
+
+Lemma append_PubB : forall data b, PubB b -> PubB (append PS b data).
+Proof. unfold append. induction data as [|x data IH]; intros b H; cbn [fold_left]; [exact H|]. apply IH, append_byte_PubB, H. Qed.
+
+Lemma firstn_splice k src (d : list Z) : (k <= length d)%nat -> firstn k (splice k src d) = firstn k d.
+Proof.
+  intros Hle. unfold splice. rewrite firstn_app_le by (rewrite firstn_length; lia).
+  rewrite firstn_firstn, Nat.min_id. reflexivity.
+Qed.
+
+Lemma PubB_same (b b' : wbuf) : cores (b_pages b') = cores (b_pages b) -> b_hdr b' = b_hdr b -> PubB b -> PubB b'.
+Proof. intros Hc Hh H. unfold PubB. rewrite Hc, Hh. exact H. Qed.
+
+Lemma set_hdr_size_PubB b sz : PubB b -> PubB (set_hdr_size b sz).
+Proof.
+  intros (CA & cp & CB & k & E & Hhdr & Hk & HA & Hp). unfold set_hdr_size. rewrite Hhdr.
+  replace (pgH + k - pgH)%nat with k by lia.
+  set (src := le_encode hdr_len sz). assert (Hsrc : length src = hdr_len) by apply le_encode_length.
+  exists CA, (splice k src (c_data cp), c_dirty cp, c_disk cp), CB, k. cbn [b_pages b_hdr].
+  split.
+  - unfold cores. rewrite (map_upd_nth_comm core _ (fun c => (splice k src (c_data c), c_dirty c, c_disk c))) by reflexivity.
+    change (map core (b_pages b)) with (cores (b_pages b)). rewrite E. exact (upd_nth_app _ CA cp CB).
+  - split; [first [exact Hhdr | reflexivity]|]. split; [unfold c_data in *; cbn [fst] in *; rewrite splice_length by lia; exact Hk|]. split; [exact HA|].
+    intros Hd. destruct (Hp Hd) as [->|(d0 & Hd0 & Hf)]; [left; reflexivity|right].
+    exists d0. split; [exact Hd0|]. unfold c_data in *; cbn [fst] in *. rewrite firstn_splice by lia. exact Hf.
+Qed.
+
+Definition cmark (c : list Z * bool * option (list Z)) : list Z * bool * option (list Z) := (c_data c, true, c_disk c).
+
+Lemma cores_mark_from : forall l i, cores (mark_from i l) = firstn i (cores l) ++ map cmark (skipn i (cores l)).
+Proof.
+  induction l as [|x l IH]; intros [|i]; cbn [mark_from cores map firstn skipn app]; auto.
+  - f_equal. apply (IH O).
+  - f_equal. apply IH.
+Qed.
+
+Lemma settled_mark c : c_settled (cmark c). Proof. intros H. discriminate H. Qed.
+
+Lemma Forall_upd_nth {A} (Q : A -> Prop) (f : A -> A) : (forall x, Q x -> Q (f x)) ->
+  forall l i, Forall Q l -> Forall Q (upd_nth i f l).
+Proof. intros Hf. induction l as [|x l IH]; intros [|i] H; cbn; auto; inversion H; subst; constructor; auto. Qed.
+
+Lemma commit_event_PubC b id : PubB b -> PubC (commit_event b id).
+Proof.
+  intros (CA & cp & CB & k & E & Hhdr & Hk & HA & Hp). unfold commit_event. rewrite Hhdr. cbn [b_pages].
+  set (ps1 := upd_nth (length CA) _ (b_pages b)).
+  assert (E1 : cores ps1 = CA ++ cp :: CB).
+  { unfold ps1, cores. rewrite map_upd_nth; [exact E|]. intros x. destruct (wp_off x =? 0)%nat; reflexivity. }
+  assert (E2 : cores (mark_from (length CA) ps1) = CA ++ map cmark (cp :: CB)).
+  { rewrite cores_mark_from, E1, firstn_app, Nat.sub_diag, firstn_all, skipn_app, Nat.sub_diag, skipn_all. cbn [firstn skipn app].
+    rewrite app_nil_r. reflexivity. }
+  assert (Hdirty : Forall (fun c => c_dirty c = true) (map cmark (cp :: CB))).
+  { apply Forall_forall. intros c Hc. apply in_map_iff in Hc. destruct Hc as (c0 & <- & _). reflexivity. }
+  destruct (length CA =? 1)%nat.
+  - exists (upd_nth 0 cmark CA), (map cmark (cp :: CB)). split.
+    + cbn [b_pages]. unfold cores. rewrite (map_upd_nth_comm core _ cmark) by reflexivity.
+      change (map core (mark_from (length CA) ps1)) with (cores (mark_from (length CA) ps1)).
+      rewrite E2. destruct CA; reflexivity.
+    + split; [|exact Hdirty]. apply Forall_upd_nth; [|exact HA]. intros x _. apply settled_mark.
+  - exists CA, (map cmark (cp :: CB)). cbn [b_pages]. auto.
+Qed.
+
+Lemma Forall_last_split {A} (Q R : A -> Prop) (a c : list A) x t :
+  a ++ c = x ++ [t] -> Forall Q a -> Forall R c -> (Forall Q x /\ Forall R x \/ True) -> (In t c \/ (c = [] /\ In t a)).
+Proof.
+  intros E _ _ _. destruct (snoc_cases c) as [->|[c' [t' ->]]].
+  - right. split; [reflexivity|]. rewrite app_nil_r in E. subst a. apply in_or_app. right. left. reflexivity.
+  - left. rewrite app_assoc in E. apply app_inj_tail in E. destruct E as [_ ->]. apply in_or_app. right. left. reflexivity.
+Qed.
+
+Lemma reserve_hdr_PubB b : PubC b -> PubB (reserve_hdr PS b).
+Proof.
+  intros (CA & CC & E & HA & HC). hl.
+  assert (Hsettled : Forall c_settled (CA ++ CC)).
+  { apply Forall_app. split; [exact HA|]. apply Forall_forall. intros c Hc Hd.
+    rewrite Forall_forall in HC. rewrite (HC c Hc) in Hd. discriminate. }
+  destruct b as [pg av hd ct]. cbn [b_pages] in *.
+  unfold reserve_hdr, room, tail_len. cbn [b_pages].
+  destruct (snoc_cases pg) as [->|[a [t ->]]].
+  - (* empty buffer: a fresh page *)
+    cbn [rev]. rewrite Nat.sub_diag.
+    destruct (Nat.ltb_spec 0 hdr_len) as [_|]; [|lia].
+    unfold upd_last. cbn [advance b_pages b_avail b_hdr b_count app length Nat.sub upd_nth rev].
+    exists [], (core (push (zeros hdr_len) fresh_wpage)), [], O. cbn [b_pages b_hdr cores map].
+    split; [reflexivity|]. split; [reflexivity|]. split; [unfold c_data; cbn; rewrite zeros_length; lia|]. split; [constructor|].
+    intros _. left. reflexivity.
+  - rewrite rev_app_distr. cbn [rev app].
+    assert (Ecore : CA ++ CC = cores a ++ [core t]).
+    { rewrite <- E, cores_app. reflexivity. }
+    destruct (Nat.ltb_spec (payload PS - length (wp_data t)) hdr_len) as [Hsmall|Hbig].
+    + (* fresh page for the header *)
+      cbn [advance b_pages b_avail b_hdr b_count]. rewrite rev_app_distr. cbn [rev app wp_data fresh_wpage length].
+      rewrite upd_last_snoc.
+      exists (CA ++ CC), (core (push (zeros hdr_len) fresh_wpage)), [], O. cbn [b_pages b_hdr].
+      split; [rewrite cores_app, cores_app, Ecore; reflexivity|].
+      split; [rewrite Ecore, !app_length; unfold cores; rewrite map_length; cbn [length]; f_equal; f_equal; lia|].
+      split; [unfold c_data; cbn; rewrite zeros_length; lia|]. split; [exact Hsettled|]. intros _. left. reflexivity.
+    + cbn [b_pages b_avail b_hdr b_count]. rewrite rev_app_distr. cbn [rev app]. rewrite upd_last_snoc.
+      exists (cores a), (core (push (zeros hdr_len) t)), [], (length (wp_data t)). cbn [b_pages b_hdr].
+      split; [rewrite cores_app; reflexivity|].
+      split; [rewrite app_length; cbn [length]; unfold cores; rewrite map_length; f_equal; f_equal; lia|].
+      split; [unfold c_data; cbn; rewrite app_length, zeros_length; lia|].
+      rewrite Ecore in Hsettled. apply Forall_app in Hsettled. destruct Hsettled as [Ha Ht]. split; [exact Ha|].
+      inversion Ht as [|? ? Hts _]; subst. intros Hd. right. exists (wp_data t). cbn in Hd.
+      split; [apply Hts; exact Hd|]. unfold c_data; cbn. rewrite firstn_app_le by lia. reflexivity.
+Qed.
+
+End Pub.
+
+Definition cF (c : list Z * bool * option (list Z)) : list Z * bool * option (list Z) := (c_data c, false, Some (c_data c)).
+
+Record PubInv (s : wst) : Prop := { pi_hist : Forall c_done (cores (ws_hist s)); pi_buf : PubB (ws_buf s) }.
+
+(* the file holds everything in front of the open header *)
+Definition Published (s : wst) : Prop :=
+  Forall c_done (cores (ws_hist s)) /\
+  exists CA cp CB k, cores (b_pages (ws_buf s)) = CA ++ cp :: CB /\ b_hdr (ws_buf s) = Some (length CA, (pgH + k)%nat) /\
+    (k + hdr_len <= length (c_data cp))%nat /\ Forall c_done CA /\
+    (k = O \/ exists d, c_disk cp = Some d /\ firstn k d = firstn k (c_data cp)).
+
+Lemma done_settled c : c_done c -> c_settled c. Proof. intros [_ H] _. exact H. Qed.
+
+Lemma Published_PubInv s : Published s -> PubInv s.
+Proof.
+  intros (Hh & CA & cp & CB & k & E & Hhdr & Hk & HA & Hp). split; [exact Hh|].
+  exists CA, cp, CB, k. split; [exact E|]. split; [exact Hhdr|]. split; [exact Hk|].
+  split; [eapply Forall_impl; [|exact HA]; intros c; apply done_settled|]. intros _. exact Hp.
+Qed.
+
+Lemma Forall_firstn {A} (Q : A -> Prop) n (l : list A) : Forall Q l -> Forall Q (firstn n l).
+Proof. intros H. rewrite <- (firstn_skipn n l) in H. apply Forall_app in H. tauto. Qed.
+Lemma Forall_skipn {A} (Q : A -> Prop) n (l : list A) : Forall Q l -> Forall Q (skipn n l).
+Proof. intros H. rewrite <- (firstn_skipn n l) in H. apply Forall_app in H. tauto. Qed.
+
+Lemma cF_done l : Forall c_done (map cF l).
+Proof. apply Forall_forall. intros c Hc. apply in_map_iff in Hc. destruct Hc as (c0 & <- & _). split; reflexivity. Qed.
+
+Lemma do_flush_Pub s fo : PubInv s ->
+  PubInv (fst (do_flush s fo)) /\ match snd (do_flush s fo) with FDone _ _ _ => Published (fst (do_flush s fo)) | _ => True end.
+Proof.
+  intros [Hhist HB]. pose proof HB as (CA & cp & CB & k & E & Hhdr & Hk & HA & Hp).
+  unfold do_flush. destruct (flush_range (ws_buf s)) as [n reported] eqn:FR.
+  destruct n as [|n1]; [cbn [fst snd]; split; [split; assumption | exact I]|].
+  set (pages := b_pages (ws_buf s)) in *.
+  set (range := firstn (S n1) pages). set (rest := skipn (S n1) pages). set (u := first_unassigned range).
+  assert (Hr1 : forall ids, cores (firstn u range ++ assign ids (skipn u range)) = cores range).
+  { intros ids. rewrite cores_app, cores_assign, <- cores_app, firstn_skipn. reflexivity. }
+  destruct fo as [ids| |ids]; cbn [fst snd].
+  - (* success *)
+    set (range2 := link (firstn u range ++ assign ids (skipn u range))).
+    set (clean := map (fun p => set_disk (Some (wp_data p)) (set_dirty false p)) range2 ++ rest).
+    (* which pages the range covers *)
+    assert (Hn : (S n1 = length CA /\ c_dirty cp = false) \/ (S n1 = S (length CA) /\ c_dirty cp = true)).
+    { unfold flush_range in FR. fold pages in FR. destruct pages as [|h tl] eqn:Epg; [discriminate|].
+      destruct (negb (wp_dirty h)); [discriminate|]. rewrite Hhdr in FR.
+      assert (Hnth : wp_dirty (nth (length CA) (h :: tl) fresh_wpage) = c_dirty cp).
+      { change (wp_dirty (nth (length CA) (h :: tl) fresh_wpage)) with (c_dirty (core (nth (length CA) (h :: tl) fresh_wpage))).
+        rewrite <- (map_nth core). fold (cores (h :: tl)). rewrite E, nth_middle. reflexivity. }
+      rewrite Hnth in FR. destruct (c_dirty cp); injection FR as <- _; [right|left]; split; reflexivity. }
+    assert (Hclean : exists CA' cp', cores clean = CA' ++ cp' :: CB /\ length CA' = length CA /\ Forall c_done CA' /\
+              c_data cp' = c_data cp /\ (k = O \/ exists d, c_disk cp' = Some d /\ firstn k d = firstn k (c_data cp'))).
+    { unfold clean. rewrite cores_app.
+      assert (Ec : cores (map (fun p => set_disk (Some (wp_data p)) (set_dirty false p)) range2) = map cF (cores range)).
+      { assert (EF : forall l, cores (map (fun p => set_disk (Some (wp_data p)) (set_dirty false p)) l) = map cF (cores l)).
+        { intros l. unfold cores. rewrite !map_map. apply map_ext. reflexivity. }
+        rewrite EF. unfold range2. rewrite cores_link, Hr1. reflexivity. }
+      rewrite Ec. unfold range, rest. rewrite cores_firstn, cores_skipn. fold pages in E. rewrite E.
+      destruct Hn as [[Hn Hd]|[Hn Hd]]; rewrite Hn.
+      - rewrite firstn_app, Nat.sub_diag, firstn_all, skipn_app, Nat.sub_diag, skipn_all. cbn [firstn skipn app]. rewrite app_nil_r.
+        exists (map cF CA), cp. split; [reflexivity|]. split; [apply map_length|]. split; [apply cF_done|]. split; [reflexivity|].
+        exact (Hp Hd).
+      - replace (CA ++ cp :: CB) with ((CA ++ [cp]) ++ CB) by (rewrite <- app_assoc; reflexivity).
+        replace (S (length CA)) with (length (CA ++ [cp])) by (rewrite app_length; cbn; lia).
+        rewrite firstn_app, Nat.sub_diag, firstn_all, skipn_app, Nat.sub_diag, skipn_all. cbn [firstn skipn app]. rewrite app_nil_r.
+        rewrite map_app. cbn [map]. rewrite <- app_assoc. cbn [app].
+        exists (map cF CA), (cF cp). split; [reflexivity|]. split; [apply map_length|]. split; [apply cF_done|]. split; [reflexivity|].
+        right. exists (c_data cp). split; reflexivity. }
+    destruct Hclean as (CA' & cp' & Ecl & HlenA & HdoneA & Hdata & Hpub).
+    rewrite Hhdr. cbn [option_map fst].
+    set (kk := reset_end clean 0 (Some (length CA)) n1).
+    assert (Hkk : (kk <= length CA)%nat) by (apply reset_end_le; lia).
+    assert (HP' : forall s', ws_hist s' = ws_hist s ++ firstn kk clean -> b_pages (ws_buf s') = skipn kk clean ->
+                   b_hdr (ws_buf s') = Some ((length CA - kk)%nat, (pgH + k)%nat) -> Published s').
+    { intros s' E1 E2 E3. split.
+      - rewrite E1, cores_app. apply Forall_app. split; [exact Hhist|].
+        rewrite cores_firstn, Ecl, firstn_app. replace (kk - length CA')%nat with O by lia. cbn [firstn]. rewrite app_nil_r.
+        apply Forall_firstn. exact HdoneA.
+      - exists (skipn kk CA'), cp', CB, k. rewrite E2, E3.
+        split; [rewrite cores_skipn, Ecl, skipn_app; replace (kk - length CA')%nat with O by lia; reflexivity|].
+        split; [rewrite skipn_length, HlenA; reflexivity|]. split; [rewrite Hdata; exact Hk|].
+        split; [apply Forall_skipn; exact HdoneA | exact Hpub]. }
+    split; [apply Published_PubInv|]; apply HP'; reflexivity.
+  - split; [split; assumption | exact I].
+  - split; [|exact I]. split; cbn [with_buf ws_hist ws_buf]; [exact Hhist|].
+    eapply PubB_same; [| |exact HB]; cbn [b_pages b_hdr]; [|reflexivity].
+    rewrite cores_app, cores_app, (cores_map_same (set_id 0)) by reflexivity.
+    rewrite <- cores_app, firstn_skipn, cores_stale, Hr1. unfold range, rest. rewrite <- cores_app, firstn_skipn. reflexivity.
+Qed.
+
+Lemma flush_buffer_Pub s fo : PubInv s ->
+  PubInv (fst (flush_buffer s fo)) /\
+  match snd (flush_buffer s fo) with WOk (Some (FDone _ _ _, _)) => Published (fst (flush_buffer s fo)) | _ => True end.
+Proof.
+  intros H. destruct (do_flush_Pub s fo H) as [H1 H2]. unfold flush_buffer.
+  destruct (do_flush s fo) as [s1 r]. cbn [fst snd] in *.
+  destruct r; cbn [fst snd]; (split; [|try exact I]).
+  - destruct H1 as [Ha Hb]. split; assumption.
+  - destruct H1 as [Ha Hb]. split; assumption.
+  - exact H2.
+  - exact H1.
+Qed.
+
+Section PubW.
+Variable PS : nat.
+
+Theorem w_step_Pub s o : PubInv s ->
+  PubInv (fst (w_step PS s o)) /\
+  match o, snd (w_step PS s o) with
+  | WNext _, WOk (Some (FDone _ _ _, _)) | WFlush _, WOk (Some (FDone _ _ _, _)) => Published (fst (w_step PS s o))
+  | _, _ => True
+  end.
+Proof.
+  intros H. destruct o as [data fo|fo|fo]; cbn [w_step].
+  - (* Write *)
+    assert (Hgo : forall s1, PubInv s1 ->
+              PubInv {| ws_buf := append PS (ws_buf s1) data; ws_evBytes := ws_evBytes s1 + Z.of_nat (length data); ws_evId := ws_evId s1;
+                        ws_active := ws_active s1; ws_root := ws_root s1; ws_hist := ws_hist s1 |}).
+    { intros s1 [Ha Hb]. split; cbn [ws_hist ws_buf]; [exact Ha | apply append_PubB; exact Hb]. }
+    destruct (b_avail (ws_buf s) <=? Z.of_nat (length data)).
+    + destruct (flush_buffer_Pub s fo H) as [H1 _]. destruct (flush_buffer s fo) as [s1 r]. cbn [fst] in H1.
+      destruct r; cbn [fst snd]; (split; [|exact I]); [apply Hgo; exact H1 | exact H1].
+    + cbn [fst snd]. split; [apply Hgo; exact H | exact I].
+  - (* Next *)
+    destruct H as [Ha Hb].
+    set (b1 := reserve_hdr PS (commit_event (set_hdr_size (ws_buf s) (ws_evBytes s)) (ws_evId s))).
+    assert (H1 : PubInv {| ws_buf := b1; ws_evBytes := 0; ws_evId := ws_evId s + 1; ws_active := ws_active s + 1; ws_root := ws_root s;
+                           ws_hist := ws_hist s |}).
+    { split; cbn [ws_hist ws_buf]; [exact Ha|]. unfold b1. apply reserve_hdr_PubB, commit_event_PubC, set_hdr_size_PubB, Hb. }
+    destruct (b_avail b1 <=? Z.of_nat hdr_len).
+    + exact (flush_buffer_Pub _ fo H1).
+    + cbn [fst snd]. split; [exact H1 | exact I].
+  - exact (flush_buffer_Pub s fo H).
+Qed.
+
+Theorem w_init_Pub pages tail endId r :
+  match tail with Some t => wp_dirty t = false /\ wp_disk t = Some (wp_data t) | None => True end ->
+  PubInv (w_init PS pages tail endId r).
+Proof.
+  intros Ht. split; cbn [w_init ws_hist ws_buf]; [constructor|].
+  apply reserve_hdr_PubB. destruct tail as [t|]; cbn [b_pages].
+  - exists [core t], []. split; [reflexivity|]. split; [|constructor].
+    constructor; [|constructor]. intros _. destruct Ht as [_ Hd]. exact Hd.
+  - exists [], []. split; [reflexivity|]. split; constructor.
+Qed.
+
+End PubW.
+
+(* ---------- the stream in the file after a successful flush ---------- *)
+Definition disk_data (c : list Z * bool * option (list Z)) : list Z := match c_disk c with Some d => d | None => [] end.
+
+Lemma app_cons_inj {A} : forall (a a' : list A) x x' b b', a ++ x :: b = a' ++ x' :: b' -> length a = length a' ->
+  a = a' /\ x = x' /\ b = b'.
+Proof.
+  induction a as [|y a IH]; intros [|y' a'] x x' b b' E L; cbn in *; try discriminate.
+  - injection E as -> ->. auto.
+  - injection E as -> E. injection L as L. destruct (IH _ _ _ _ _ E L) as (-> & -> & ->). auto.
+Qed.
+
+Section Stream.
+Variable PS : nat.
+Notation P := (payload PS).
+Hypothesis HP : (hdr_len <= P)%nat.
+
+Lemma flat_cons_prefix (d : list Z) (B : list (list Z)) : exists rest, flat P (d :: B) = d ++ rest.
+Proof.
+  destruct (snoc_cases B) as [->|[B' [t ->]]].
+  - exists []. change [d] with ([] ++ [d]). rewrite flat_snoc. cbn. rewrite app_nil_r. reflexivity.
+  - change (d :: B' ++ [t]) with ((d :: B') ++ [t]). rewrite flat_snoc, flatpad_cons. unfold padp. rewrite <- !app_assoc. eauto.
+Qed.
+
+Lemma flat_app_cons (A : list (list Z)) d B : flat P (A ++ d :: B) = flatpad P A ++ flat P (d :: B).
+Proof.
+  destruct (snoc_cases B) as [->|[B' [t ->]]].
+  - rewrite flat_snoc. change [d] with ([] ++ [d]). rewrite flat_snoc. reflexivity.
+  - replace (A ++ d :: B' ++ [t]) with ((A ++ d :: B') ++ [t]) by (rewrite <- app_assoc; reflexivity).
+    change (d :: B' ++ [t]) with ((d :: B') ++ [t]). rewrite !flat_snoc, flatpad_app, <- app_assoc. reflexivity.
+Qed.
+
+Theorem published_stream s base done cur : SI PS s base done cur -> Published s ->
+  exists i off post, b_hdr (ws_buf s) = Some (i, off) /\
+    flat P (map disk_data (cores (ws_hist s ++ firstn (S i) (b_pages (ws_buf s))))) = pre_of PS base done ++ post.
+Proof.
+  intros [(h4 & Hh4 & HBI) _] (Hhist & CA & cp & CB & k & E & Hhdr & Hk & HA & Hpub).
+  destruct HBI as [_ Hok Hflat (DA & dp & DB & k' & HD & Hh' & Hk' & Hg) _].
+  rewrite Hhdr in Hh'. injection Hh' as HlenA Hkk. assert (k' = k) by lia. subst k'.
+  assert (Hsplit : map c_data CA = DA /\ c_data cp = dp /\ map c_data CB = DB).
+  { apply app_cons_inj; [|rewrite map_length; exact HlenA].
+    rewrite <- HD, <- cores_pdata, E, map_app. reflexivity. }
+  destruct Hsplit as (HDA & Hdp & _).
+  exists (length CA), (pgH + k)%nat.
+  assert (Hdone_data : forall l, Forall c_done l -> map disk_data l = map c_data l).
+  { intros l Hl. apply map_ext_in. intros c Hc. rewrite Forall_forall in Hl. destruct (Hl c Hc) as [_ Hd].
+    unfold disk_data. rewrite Hd. reflexivity. }
+  assert (Ecs : cores (ws_hist s ++ firstn (S (length CA)) (b_pages (ws_buf s))) = cores (ws_hist s) ++ CA ++ [cp]).
+  { rewrite cores_app, cores_firstn, E.
+    replace (CA ++ cp :: CB) with ((CA ++ [cp]) ++ CB) by (rewrite <- app_assoc; reflexivity).
+    replace (S (length CA)) with (length (CA ++ [cp])) by (rewrite app_length; cbn; lia).
+    rewrite firstn_app, Nat.sub_diag, firstn_all. cbn [firstn]. rewrite app_nil_r. reflexivity. }
+  rewrite Ecs, !map_app. cbn [map]. rewrite (Hdone_data _ Hhist), (Hdone_data _ HA), cores_pdata, HDA.
+  rewrite app_assoc, flat_snoc.
+  (* the stream of all pages up to the header *)
+  assert (Hokp : okp PS (pdata (ws_hist s) ++ DA)).
+  { rewrite HD in Hok. rewrite app_assoc in Hok. apply okp_app in Hok. tauto. }
+  assert (Hpre : pre_of PS base done = flatpad P (pdata (ws_hist s) ++ DA) ++ firstn k dp).
+  { rewrite HD, app_assoc, flat_app_cons in Hflat.
+    destruct (flat_cons_prefix dp DB) as [rest Hrest]. rewrite Hrest in Hflat.
+    assert (Hlen : length (pre_of PS base done) = (length (flatpad P (pdata (ws_hist s) ++ DA)) + k)%nat).
+    { rewrite flatpad_length by exact Hokp. rewrite app_length, <- Hg. f_equal. }
+    apply (f_equal (firstn (length (pre_of PS base done)))) in Hflat.
+    assert (Hr : forall (a b : list Z), firstn (length a) (a ++ b) = a).
+    { intros a b. rewrite firstn_app, Nat.sub_diag, firstn_all. cbn [firstn]. apply app_nil_r. }
+    rewrite Hr in Hflat.
+    rewrite <- Hflat, Hlen, firstn_app. rewrite firstn_all2 by lia.
+    replace (length (flatpad P (pdata (ws_hist s) ++ DA)) + k - length (flatpad P (pdata (ws_hist s) ++ DA)))%nat with k by lia.
+    f_equal. rewrite firstn_app_le by lia. reflexivity. }
+  destruct Hpub as [->|(d & Hd & Hf)].
+  - exists (disk_data cp). split; [exact Hhdr|]. rewrite Hpre. cbn [firstn]. rewrite app_nil_r. reflexivity.
+  - exists (skipn k d). split; [exact Hhdr|]. unfold disk_data. rewrite Hd, Hpre, <- app_assoc. f_equal.
+    rewrite <- Hdp, <- Hf. symmetry. apply firstn_skipn.
+Qed.
+
+End Stream.
+
+(* ---------- runs ---------- *)
+Section Runs.
+Variable PS : nat.
+Notation P := (payload PS).
+Hypothesis HP : (hdr_len <= P)%nat.
+
+Lemma w_run_Pub : forall ops s, PubInv s -> PubInv (fst (w_run PS s ops)).
+Proof.
+  induction ops as [|o ops IH]; intros s H; cbn [w_run fst]; [exact H|].
+  destruct (w_step_Pub PS s o H) as [H1 _]. destruct (w_step PS s o) as [s1 r]. cbn [fst] in H1.
+  specialize (IH s1 H1). destruct (w_run PS s1 ops) as [s2 rs]. exact IH.
+Qed.
+
+(* a run, then a Next / Flush call whose flush succeeds: the parser of the reader, run on the payloads as they were
+   written to the file (up to the page of the open event's header), returns exactly the completed events *)
+Theorem flush_publishes_events pages tail endId root ops o :
+  match tail with Some t => (length (wp_data t) <= P)%nat /\ wp_dirty t = false /\ wp_disk t = Some (wp_data t) | None => True end ->
+  let base := match tail with Some t => wp_data t | None => [] end in
+  let '(s1, rs) := w_run PS (w_init PS pages tail endId root) ops in
+  let '(s2, r) := w_step PS s1 o in
+  let '(done, cur) := spec_step (spec_run ([], []) ops rs) o r in
+  match o, r with
+  | WNext _, WOk (Some (FDone _ _ _, _)) | WFlush _, WOk (Some (FDone _ _ _, _)) =>
+      Forall (fun e => Z.of_nat (length e) < 256 ^ Z.of_nat hdr_len) done ->
+      exists i off, b_hdr (ws_buf s2) = Some (i, off) /\
+        parse_from P (flat P (map disk_data (cores (ws_hist s2 ++ firstn (S i) (b_pages (ws_buf s2)))))) (length base) (length done) = Some done
+  | _, _ => True
+  end.
+Proof.
+  intros Ht. cbn zeta.
+  assert (Ht1 : match tail with Some t => (length (wp_data t) <= P)%nat | None => True end) by (destruct tail; tauto).
+  assert (Ht2 : match tail with Some t => wp_dirty t = false /\ wp_disk t = Some (wp_data t) | None => True end) by (destruct tail; tauto).
+  pose proof (w_run_SI PS HP ops _ _ [] [] (w_init_SI PS HP pages tail endId root Ht1)) as HS.
+  pose proof (w_run_Pub ops _ (w_init_Pub PS pages tail endId root Ht2)) as HPub.
+  destruct (w_run PS (w_init PS pages tail endId root) ops) as [s1 rs]. cbn [fst] in HPub.
+  destruct (spec_run ([], []) ops rs) as [done1 cur1].
+  destruct o as [d fo|fo|fo].
+  - destruct (w_step PS s1 (WWrite d fo)) as [s2 r]. destruct (spec_step (done1, cur1) (WWrite d fo) r). exact I.
+  - pose proof (w_step_SI PS HP s1 (WNext fo) _ done1 cur1 HS) as HS2.
+    destruct (w_step_Pub PS s1 (WNext fo) HPub) as [_ HP2].
+    destruct (w_step PS s1 (WNext fo)) as [s2 r]. cbn [fst snd] in HP2.
+    destruct (spec_step (done1, cur1) (WNext fo) r) as [done cur].
+    destruct r as [[[fr cb]|]|]; try exact I; destruct fr; try exact I. intros Hsz.
+    destruct (published_stream PS HP s2 _ done cur HS2 HP2) as (i & off & post & Hh & Hst).
+    exists i, off. split; [exact Hh|]. rewrite Hst. unfold pre_of. rewrite <- !app_assoc.
+    apply parse_layout. exact Hsz.
+  - pose proof (w_step_SI PS HP s1 (WFlush fo) _ done1 cur1 HS) as HS2.
+    destruct (w_step_Pub PS s1 (WFlush fo) HPub) as [_ HP2].
+    destruct (w_step PS s1 (WFlush fo)) as [s2 r]. cbn [fst snd] in HP2.
+    destruct (spec_step (done1, cur1) (WFlush fo) r) as [done cur].
+    destruct r as [[[fr cb]|]|]; try exact I; destruct fr; try exact I. intros Hsz.
+    destruct (published_stream PS HP s2 _ done cur HS2 HP2) as (i & off & post & Hh & Hst).
+    exists i, off. split; [exact Hh|]. rewrite Hst. unfold pre_of. rewrite <- !app_assoc.
+    apply parse_layout. exact Hsz.
+Qed.
+
+End Runs.
